@@ -853,13 +853,118 @@ def _const_str_args(c: ast.Call) -> List[str]:
     return [a.value for a in c.args if isinstance(a, ast.Constant) and isinstance(a.value, (str, bytes))]
 
 
-def _re_calls(fn_node, func_names=("match", "search", "fullmatch")):
+class RegexUse:
+    __slots__ = ("call", "method", "pattern", "cre", "g")
+
+    def __init__(self, call, method, pattern, cre, g):
+        self.call, self.method, self.pattern, self.cre, self.g = call, method, pattern, cre, g
+
+    def apply(self, text):
+        return getattr(self.cre, self.method)(text)
+
+    @property
+    def start_anchored(self) -> bool:
+        """The match can only begin at the start of the subject (match/fullmatch, or a leading ^ / \\A in every
+        top-level alternative)."""
+        if self.method in ("match", "fullmatch"):
+            return True
+        try:
+            import re._parser as sre_parse       # Python >= 3.11
+        except ImportError:                       # pragma: no cover
+            import sre_parse
+        AT, BRANCH, SUBPATTERN = sre_parse.AT, sre_parse.BRANCH, sre_parse.SUBPATTERN
+        begin = (sre_parse.AT_BEGINNING, sre_parse.AT_BEGINNING_STRING)
+
+        def seq_anchored(seq) -> bool:
+            items = list(seq)
+            if not items:
+                return False
+            op, av = items[0]
+            if op is AT and av in begin:
+                return not (self.cre.flags & re.MULTILINE) or av is sre_parse.AT_BEGINNING_STRING
+            if op is BRANCH:
+                return all(seq_anchored(alt) for alt in av[1])
+            if op is SUBPATTERN:
+                return seq_anchored(av[3])
+            return False
+        return seq_anchored(sre_parse.parse(self.pattern))
+
+
+def _const_pattern(repo, g: FuncInfo, e) -> Optional[str]:
+    """Constant pattern string denoted by e (literal, or a module / class level constant)."""
+    if isinstance(e, ast.Constant) and isinstance(e.value, str):
+        return e.value
+    v = _static_value(repo, g, e)
+    if isinstance(v, ast.Constant) and isinstance(v.value, str):
+        return v.value
+    return None
+
+
+def _static_value(repo, g: FuncInfo, e) -> Optional[ast.AST]:
+    """Value node of a module-level name or a class attribute reached as cls.X / self.X / Class.X."""
+    if isinstance(e, ast.Name):
+        return repo.module_assign(g.module, e.id)
+    if isinstance(e, ast.Attribute) and isinstance(e.value, ast.Name):
+        if e.value.id in ("cls", "self") and g.cls is not None:
+            return repo.class_attr(g.cls, e.attr)
+        ci = repo.resolve_class(e.value.id, g.module)
+        if ci is not None:
+            return repo.class_attr(ci, e.attr)
+    return None
+
+
+def _regex_uses(repo, g: FuncInfo, node=None) -> List[RegexUse]:
+    """re.match/search/fullmatch(<const pattern>, subject) and <precompiled constant>.match/search/fullmatch(subject)."""
     out = []
-    for c in calls(fn_node, into_defs=True):
-        if isinstance(c.func, ast.Attribute) and ap(c.func.value) == "re" and c.func.attr in func_names and c.args \
-                and isinstance(c.args[0], ast.Constant) and isinstance(c.args[0].value, str):
-            out.append(c)
+    for c in calls(node if node is not None else g.node, into_defs=True):
+        if not (isinstance(c.func, ast.Attribute) and c.func.attr in ("match", "search", "fullmatch")):
+            continue
+        pat = None
+        if ap(c.func.value) == "re" and g.module.imports.get("re") == "re" and c.args:
+            pat = _const_pattern(repo, g, c.args[0])
+            if pat is None:
+                v = _static_value(repo, g, c.args[0])
+                if isinstance(v, ast.Call) and ap(v.func) == "re.compile" and v.args:
+                    pat = _const_pattern(repo, g, v.args[0])
+        else:
+            v = _static_value(repo, g, c.func.value)
+            if isinstance(v, ast.Call) and ap(v.func) == "re.compile" and v.args:
+                pat = _const_pattern(repo, g, v.args[0])
+        if pat is None:
+            continue
+        try:
+            cre = re.compile(pat)
+        except re.error as exc:
+            raise AnalysisError(f"C11.R2: parser pattern {pat!r} does not compile: {exc}")
+        out.append(RegexUse(c, c.func.attr, pat, cre, g))
     return out
+
+
+def _decides_branch(g: FuncInfo, c: ast.Call) -> bool:
+    """The regex result is (part of) an if/elif/while/conditional test, directly or through a local name."""
+    cur = c
+    while parent(cur) is not None and not isinstance(parent(cur), ast.stmt):
+        p = parent(cur)
+        if isinstance(p, ast.IfExp) and p.test is cur:
+            return True
+        if isinstance(p, (ast.Attribute, ast.Call, ast.Subscript)) and p is not c:
+            # .group(...) / indexing of the result: extraction, not a test (an attribute of None would raise)
+            if not (isinstance(p, ast.Call) and any(a is cur for a in p.args)):
+                return False
+        cur = p
+    st = parent(cur)
+    if isinstance(st, (ast.If, ast.While)) and st.test is cur:
+        return True
+    if isinstance(st, ast.Assert):
+        return True
+    if isinstance(st, ast.Assign) and len(st.targets) == 1 and isinstance(st.targets[0], ast.Name) and st.value is cur:
+        nm = st.targets[0].id
+        for n in walk(g.node, into_defs=True):
+            if isinstance(n, (ast.If, ast.While, ast.IfExp)):
+                for x in ast.walk(n.test):
+                    if isinstance(x, ast.Name) and x.id == nm and not isinstance(parent(x), (ast.Attribute, ast.Subscript)):
+                        return True
+    return False
 
 
 def _string_pieces(fn_node) -> List[ast.AST]:
@@ -901,23 +1006,31 @@ def r2(ctx):
 
     # ---- parser constants
     comment_pats, expr_pats = [], []
-    for g in pfns:
-        for c in _re_calls(g.node):
-            pat = c.args[0].value
-            try:
-                cre = re.compile(pat)
-            except re.error as exc:
-                raise AnalysisError(f"C11.R2: parser pattern {pat!r} does not compile: {exc}")
-            st = enclosing_stmt(c)
-            if isinstance(st, ast.If) and any(x is c for x in ast.walk(st.test)) and st.body and \
-                    isinstance(st.body[-1], ast.Continue) and cre.match("") is not None:
-                comment_pats.append((g, c, cre))
-            elif cre.groups == 3:
-                expr_pats.append((g, c, cre))
+    uses = [u for g in pfns for u in _regex_uses(repo, g)]
+    ctx.floor("C11.R2", "constant regular expressions used by the parser", len(uses), 5)
+    for u in uses:
+        st = enclosing_stmt(u.call)
+        if isinstance(st, ast.If) and any(x is u.call for x in ast.walk(st.test)) and st.body and \
+                isinstance(st.body[-1], ast.Continue) and u.apply("") is not None:
+            comment_pats.append(u)
+        elif u.cre.groups == 3:
+            expr_pats.append(u)
     ctx.require(len(comment_pats) == 1, f"C11.R2: expected one comment/blank-line skip pattern in the parser, found {len(comment_pats)}")
     ctx.require(len(expr_pats) == 1, f"C11.R2: expected one `name operator value` pattern in the parser, found {len(expr_pats)}")
-    comment_re = comment_pats[0][2]
-    eg, ecall, expr_re = expr_pats[0]
+    comment_re = comment_pats[0]
+    expr_re = expr_pats[0]
+    eg = expr_re.g
+    # every pattern that decides how a line / value is interpreted can only match at its start: the formatter puts
+    # arbitrary text inside string literals, an unanchored sniffing pattern would fire on text in the middle
+    n_dec = 0
+    for u in uses:
+        if _decides_branch(u.g, u.call):
+            n_dec += 1
+            ctx.ob("C11.R2", f"{u.g.qual}: branch-deciding pattern {u.pattern!r} can only match at the start of its subject",
+                   u.start_anchored, ctx.w(u.g, u.call),
+                   f"used with .{u.method}() and no leading ^/\\A: any value merely containing a match is taken by this "
+                   f"branch (e.g. a quoted string literal the formatter printed)")
+    ctx.floor("C11.R2", "branch-deciding patterns in the parser", n_dec, 4)
     # operator variable = 2nd target of the unpacking of .groups()
     op_var = None
     for st in walk(eg.node):
@@ -1012,11 +1125,11 @@ def r2(ctx):
             line = (pre + "Name" + str(vals[i + 1].value) + "1" + tail).split("\n")[0].strip()
             key = f"{g.qual}: line `{pre}<name>{vals[i + 1].value}<{'pretty' if derived else 'raw'} value>`"
             where = ctx.w(g, js)
-            if comment_re.match(line):
+            if comment_re.apply(line):
                 ctx.ob("C11.R2", key + " is skipped as a comment", pre.strip() != "", where,
                        "a variable line without comment prefix is swallowed by the parser's comment pattern")
                 continue
-            m = expr_re.match(line)
+            m = expr_re.apply(line)
             ok = m is not None and m.group(1) == "Name" and m.group(2) == op and m.group(3).strip() == "1"
             ctx.ob("C11.R2", key + " matches the parser's expression pattern", ok, where,
                    f"parser pattern {expr_re.pattern!r} on {line!r} gives {m.groups() if m else None}, formatter emits operator {op!r}")
@@ -1044,23 +1157,24 @@ def r2(ctx):
                 s = seg.strip()
                 if not s:
                     continue
-                if comment_re.match(s):
+                if comment_re.apply(s):
                     n_comment += 1
                     ctx.ob("C11.R2", f"{g.qual}: emitted annotation line `{norm(piece)}` is skipped by the parser", True,
                            ctx.w(g, piece))
                     continue
                 ctx.ob("C11.R2", f"{g.qual}: emitted line `{norm(piece)}` is a comment, block header or expression line",
-                       expr_re.match(s) is not None, ctx.w(g, piece),
+                       expr_re.apply(s) is not None, ctx.w(g, piece),
                        f"{s!r} matches neither the parser's comment pattern {comment_re.pattern!r} nor its expression "
                        f"pattern (the parser would fail on it)")
     ctx.floor("C11.R2", "annotation (comment) lines emitted by to_human_string", n_comment, 1)
     # inline original after a pretty value: must be a Python comment for ast.literal_eval
     inline = []
-    for piece in _string_pieces(fv.node):
-        if isinstance(piece, ast.JoinedStr) and piece.values and isinstance(piece.values[0], ast.Constant) and \
-                str(piece.values[0].value).strip() and not re.match(r"[\w\[]", str(piece.values[0].value).strip()) \
-                and "=" not in str(piece.values[0].value):
-            inline.append(piece)
+    acc_names = {ap(parent(js).target) for g, js, i in var_lines if isinstance(parent(js), ast.AugAssign)}
+    for n in walk(fv.node, into_defs=True):
+        if isinstance(n, ast.AugAssign) and isinstance(n.op, ast.Add) and ap(n.target) in acc_names and \
+                isinstance(n.value, ast.JoinedStr) and n.value.values and isinstance(n.value.values[0], ast.Constant) \
+                and str(n.value.values[0].value).strip() and not any(n.value is js for g, js, i in var_lines):
+            inline.append(n.value)
     for piece in inline:
         text = "1" + _render(piece, {}, "2")
         try:
@@ -1068,7 +1182,7 @@ def r2(ctx):
         except Exception:
             okv = False
         lit = any(ap(c.func) == "ast.literal_eval" and may_execute(pf, c, {**classify("=|"), op_var: "=|"})
-                  for c in calls(pf.node))
+                  for g_ in pfns for c in calls(g_.node))
         ctx.ob("C11.R2", f"_format_var: inline original `{norm(piece)}` is a comment to the packed-value literal parser",
                okv and lit, ctx.w(fv, piece), f"`<value>{_render(piece, {}, '2')}` must literal-eval to <value> and the packed "
                f"branch must parse with ast.literal_eval")
@@ -1087,27 +1201,70 @@ def r2(ctx):
                 cut = -v
     ctx.ob("C11.R2", "parser removes exactly the continuation marker it tests for", cut == len(cont), ctx.w(pf, whiles[0]),
            f"tests endswith({cont!r}) but cuts {cut} characters")
-    joined = [js for js in _string_pieces(ml.node) if isinstance(js, ast.JoinedStr)]
-    ctx.floor("C11.R2", "line assembly f-strings in _multi_line_pformat", len(joined), 1)
+    # line assembly: an f-string or `+` chain made of constant-valued parts around exactly one variable part (the line)
     mlbind = cg.bindings(ml)
-    for js in joined:
-        fvs = [v for v in js.values if isinstance(v, ast.FormattedValue)]
-        if len(fvs) != 3 or any(not isinstance(v.value, ast.Name) for v in fvs):
-            raise AnalysisError(f"C11.R2: unsupported line assembly {norm(js)} in _multi_line_pformat")
-        pre_n, _line_n, suf_n = [v.value.id for v in fvs]
 
-        def consts(nm):
-            return sorted({b.value for b in mlbind.get(nm, []) if isinstance(b, ast.Constant) and isinstance(b.value, str)})
-        for suf in consts(suf_n):
+    def const_values(e, depth=0) -> Optional[Set[str]]:
+        if depth > 4:
+            return None
+        if isinstance(e, ast.Constant) and isinstance(e.value, str):
+            return {e.value}
+        if isinstance(e, ast.IfExp):
+            a, b = const_values(e.body, depth + 1), const_values(e.orelse, depth + 1)
+            return None if a is None or b is None else a | b
+        if isinstance(e, ast.Name):
+            bs = mlbind.get(e.id, [])
+            if not bs or any(b is None for b in bs):
+                return None
+            out: Set[str] = set()
+            for b in bs:
+                v = const_values(b, depth + 1)
+                if v is None:
+                    return None
+                out |= v
+            return out
+        return None
+
+    def parts_of(e) -> Optional[List[ast.AST]]:
+        if isinstance(e, ast.JoinedStr):
+            return [v.value if isinstance(v, ast.FormattedValue) else v for v in e.values]
+        if isinstance(e, ast.BinOp) and isinstance(e.op, ast.Add):
+            out, cur = [], e
+            while isinstance(cur, ast.BinOp) and isinstance(cur.op, ast.Add):
+                out.insert(0, cur.right)
+                cur = cur.left
+            out.insert(0, cur)
+            return out
+        return None
+    assemblies = []
+    for n in walk(ml.node, into_defs=True):
+        if isinstance(n, ast.BinOp) and isinstance(parent(n), ast.BinOp) and isinstance(parent(n).op, ast.Add) \
+                and parent(n).left is n:
+            continue
+        if isinstance(n, ast.AugAssign):
+            continue
+        ps = parts_of(n)
+        if not ps or len(ps) < 2:
+            continue
+        vals = [const_values(x) for x in ps]
+        var_idx = [i for i, v in enumerate(vals) if v is None]
+        if len(var_idx) == 1 and any(v is not None and any("\n" in c for c in v) for v in vals):
+            assemblies.append((n, ps, vals, var_idx[0]))
+    ctx.floor("C11.R2", "line assembly expressions in _multi_line_pformat", len(assemblies), 1)
+    import itertools as _it
+    for n, ps, vals, vi in assemblies:
+        pres = {"".join(c) for c in _it.product(*vals[:vi])} if vi else {""}
+        sufs = {"".join(c) for c in _it.product(*vals[vi + 1:])} if vi + 1 < len(ps) else {""}
+        for suf in sorted(sufs):
             if not suf:
                 continue
             head, nl, rest = suf.partition("\n")
             ok = nl == "\n" and rest == "" and head.strip() == cont and ("1" + head).rstrip().endswith(cont)
             ctx.ob("C11.R2", f"_multi_line_pformat: line suffix {suf!r} is the parser's continuation marker + newline", ok,
-                   ctx.w(ml, js), f"parser continues a value only when the stripped line ends with {cont!r}")
-        for pre in consts(pre_n):
+                   ctx.w(ml, n), f"parser continues a value only when the stripped line ends with {cont!r}")
+        for pre in sorted(pres):
             ctx.ob("C11.R2", f"_multi_line_pformat: continuation-line prefix {pre!r} is whitespace only", pre.strip() == "",
-                   ctx.w(ml, js), "the parser strips lines and concatenates them: a non-blank prefix becomes part of the value")
+                   ctx.w(ml, n), "the parser strips lines and concatenates them: a non-blank prefix becomes part of the value")
 
     # ---- block header and flags
     sw = [c for g in pfns for c in find_calls(g.node, "startswith") if _const_str_args(c)
@@ -1115,9 +1272,9 @@ def r2(ctx):
     ctx.require(len(sw) == 1, "C11.R2: parser's block-header test (`line.startswith(const)` guarding Block(...)) not found")
     blk_const = _const_str_args(sw[0])[0]
     blk_if = enclosing_stmt(sw[0])
-    name_pats = [c for c in _re_calls(blk_if) if any(x is c for b in blk_if.body for x in ast.walk(b))]
+    name_pats = [u for g in pfns for u in _regex_uses(repo, g) if any(x is u.call for b in blk_if.body for x in ast.walk(b))]
     ctx.require(len(name_pats) == 1, "C11.R2: block-name pattern in the parser's block-header branch not found")
-    blk_re = re.compile(name_pats[0].args[0].value)
+    blk_re = name_pats[0]
     hdrs = []
     for js in _string_pieces(tf.node):
         if isinstance(js, ast.JoinedStr) and len(js.values) > 1 and isinstance(js.values[0], ast.Constant) and \
@@ -1141,19 +1298,19 @@ def r2(ctx):
                 opts = [o + c for o in opts for c in consts_]
         for line in sorted(set(opts)):
             s = line.split("\n")[0].strip()
-            m = blk_re.search(s)
-            ok = s.startswith(blk_const) and m is not None and m.group(0) == "Blk" and not comment_re.match(s)
+            m = blk_re.apply(s)
+            ok = s.startswith(blk_const) and m is not None and m.group(0) == "Blk" and not comment_re.apply(s)
             ctx.ob("C11.R2", f"to_human_string: block header {s!r} parses to its block name", ok, ctx.w(tf, js),
                    f"parser takes lines starting with {blk_const!r} and reads the name with {blk_re.pattern!r}")
     # flags: ` [{flag.name}]` / ` [{int}]`
-    strip_calls = [c for c in find_calls(pf.node, "strip") if _const_str_args(c)]
-    split_calls = [c for c in find_calls(pf.node, "split") if _const_str_args(c) and _const_str_args(c)[0] != "\n"]
+    strip_calls = [c for g in pfns for c in find_calls(g.node, "strip") if _const_str_args(c)]
+    split_calls = [c for g in pfns for c in find_calls(g.node, "split") if _const_str_args(c)
+                   and _const_str_args(c)[0] not in ("\n", ",")]
     ctx.require(len(strip_calls) == 1 and len(split_calls) >= 1, "C11.R2: parser's option tokenisation (split/strip constants) not found")
     strip_set = _const_str_args(strip_calls[0])[0]
     sep = _const_str_args(split_calls[0])[0]
-    num_pats = [c for c in _re_calls(pf.node) if re.compile(c.args[0].value).fullmatch("12") and not re.compile(c.args[0].value).match("x")
-                and re.compile(c.args[0].value).groups == 0]
-    member_tests = [n for n in walk(pf.node) if isinstance(n, ast.Compare) and isinstance(n.ops[0], ast.In)
+    num_pats = [u for u in uses if u.cre.fullmatch("12") and not u.cre.match("x") and u.cre.groups == 0]
+    member_tests = [n for g in pfns for n in walk(g.node) if isinstance(n, ast.Compare) and isinstance(n.ops[0], ast.In)
                     and (ap(n.comparators[0]) or "").endswith(".__members__")]
     ctx.require(len(member_tests) == 1, "C11.R2: parser's flag-name membership test not found")
     enum_parsed = (ap(member_tests[0].comparators[0]) or "").rsplit(".", 1)[0]
@@ -1202,6 +1359,26 @@ def _resolve_local(cg, f, e, depth=0):
     return e
 
 
+def _constructs(repo, cg, g: FuncInfo, e, cls_name: str, depth=0) -> bool:
+    """Expression e (in g) builds an instance of cls_name: a direct constructor call, or a call of a same-class /
+    same-module helper all of whose returns do (local names followed)."""
+    if e is None or depth > 3:
+        return False
+    if isinstance(e, ast.Name):
+        bs = [b for b in cg.bindings(g).get(e.id, [])]
+        vals = [b for b in bs if b is not None and not (isinstance(b, ast.Constant) and b.value is None)]
+        return bool(vals) and all(_constructs(repo, cg, g, b, cls_name, depth + 1) for b in vals)
+    if isinstance(e, ast.Call):
+        if call_attr(e) == cls_name:
+            return True
+        edge = cg._resolve_call(g, e)
+        if edge.kind in ("self", "class", "exact") and len(edge.targets) == 1:
+            h = edge.targets[0]
+            rets = [n for n in walk(h.node) if isinstance(n, ast.Return) and n.value is not None]
+            return bool(rets) and all(_constructs(repo, cg, h, r.value, cls_name, depth + 1) for r in rets)
+    return False
+
+
 def _registry_lookups(repo, fns):
     out = []
     for g in fns:
@@ -1244,12 +1421,12 @@ def r3(ctx):
         p0, p1, p2 = ap(e0) or "", ap(e1) or "", ap(e2) or ""
         b0 = cg.bindings(g).get(p0.split(".")[0], [])
         ok0 = p0.endswith(".name") and p0.count(".") == 1 and any(
-            isinstance(b, ast.Call) and call_attr(b) == "Message" for b in b0 if b is not None)
+            _constructs(repo, cg, g, b, "Message") for b in b0 if b is not None)
         ctx.ob("C11.R3", inst + ": element 0 is the name of the message being built", ok0, where, f"got {p0}")
         blk = p1.split(".")[0]
         b1 = cg.bindings(g).get(blk, [])
         ok1 = p1.endswith(".name") and p1.count(".") == 1 and any(
-            isinstance(b, ast.Call) and call_attr(b) == "Block" for b in b1 if b is not None)
+            _constructs(repo, cg, g, b, "Block") for b in b1 if b is not None)
         # the block that receives the value, and the block handed to serialize(), are that same block
         tgt_stores = [s for s in stores(g.node, into_defs=False) if s.kind == "setitem" and isinstance(s.target, ast.Subscript)
                       and ap(s.target.slice) == p2]
@@ -1331,16 +1508,28 @@ def _lossy_call(c: ast.Call) -> Optional[str]:
     return None
 
 
+NARROWING = {"float32", "float16", "half", "single", "round", "trunc", "floor", "ceil"}
+
+
 def r4(ctx):
     repo = ctx.repo
-    ctx.rule("C11.R4", "the literal printer (HippoPrettyPrinter._str_format) builds its pieces from the raw value only "
-                       "with separator-preserving operations (no lossy split/strip result flows into the text)")
+    ctx.rule("C11.R4", "the printers (HippoPrettyPrinter._str_format, HumanMessageSerializer._format_var) build text from "
+                       "the raw value only with injective operations (no lossy split/strip/narrowing result flows into the text)")
     sf = repo.fn("HippoPrettyPrinter._str_format")
     fns = class_methods_reachable(repo, sf, depth=2)
     fns = [g for g in fns if g is sf or g.name.startswith("_str")]
+    fvar = repo.fn("HumanMessageSerializer._format_var")
+    # in _format_var the raw value is the parameter handed to repr()/str()/the pretty printer
+    value_params = {}
+    vp = [a.arg for a in fvar.node.args.args if any(
+        isinstance(c.func, ast.Name) and c.func.id in ("repr", "str") and c.args and ap(c.args[0]) == a.arg
+        for c in calls(fvar.node))]
+    ctx.require(len(vp) == 1, "C11.R4: cannot identify the value parameter of _format_var (the one passed to repr()/str())")
+    value_params[fvar.full] = vp
+    fns.append(fvar)
     total = 0
     for g in fns:
-        params = [a.arg for a in g.node.args.args if a.arg not in ("self", "cls")]
+        params = value_params.get(g.full) or [a.arg for a in g.node.args.args if a.arg not in ("self", "cls")]
         # raw names: parameters and names (re)bound from raw names by non-call expressions / partition-style unpacking
         raw: Set[str] = set(params)
         tainted: Dict[str, Tuple[ast.Call, str]] = {}
@@ -1360,6 +1549,9 @@ def r4(ctx):
                     why = _lossy_call(n)
                     if why and not sanitised and expr_raw(n.func.value):
                         out.append((n, why))
+                    if call_attr(n) in NARROWING and not sanitised and any(expr_raw(a) for a in n.args):
+                        out.append((n, f"{ap(n.func) or call_attr(n)}() is a narrowing conversion (distinct values map to "
+                                       f"the same result, e.g. the doubles of an LLVector3d)"))
                 if isinstance(n, ast.Compare):
                     sanitised = True
                 for ch in ast.iter_child_nodes(n):
@@ -1422,10 +1614,25 @@ def r4(ctx):
                        f"{why}; the pieces are re-joined, so distinct values print as the same literal and cannot parse back")
             else:
                 ctx.ob("C11.R4", f"{g.qual}: `return {norm(r.value)}` built from separator-preserving pieces", True, ctx.w(g, r))
-    ctx.floor("C11.R4", "return statements of the literal printer", total, 2)
+    ctx.floor("C11.R4", "return statements of the printers", total, 3)
+
+
+def r5(ctx):
+    """Beautified flag fields (`=|` with named bits + leftover int) parse back through IntFlag.encode/decode: the
+    sign-safety clause of C09.R2 is also a C11 clause."""
+    from ..engine import RenamedCtx
+    from ..tmplmodel import parse_template
+    from . import c09
+    rc = RenamedCtx(ctx, {"C09.R2": "C11.R5", "C09.R1": "C11.R5", "C09": "C11.R5"})
+    tmpl = parse_template(ctx.repo.root, ctx.repo.overlay)
+    regs = c09.registrations(rc)
+    c09.r2(rc, regs, tmpl)
+    ctx.rule("C11.R5", "pretty-printed flag/enum subfields re-encode sign-safely (re-runs C09.R2 under C11: flag/enum "
+                       "adapters never build or OR an enum.IntFlag from a possibly negative int)")
 
 
 def run(ctx):
+    r5(ctx)
     r1(ctx)
     r2(ctx)
     r3(ctx)
